@@ -470,7 +470,17 @@ func ruleC01_1(c *Ctx) {
 		// n counts whole operations and decreases by the chunk size
 		if phi, pf := phiIn(run, nAtom); phi != nil {
 			init, back := phiEdges(pf, phi)
-			okN := len(init) == 1 && init[0].Op == "bin" && init[0].Name == "/" && init[0].Args[1].Key() == fmt.Sprint(nArgs)
+			// the whole length counts: conversions that cannot change it (widening) are looked through, a narrowing one
+			// (a run of 256 arguments counted in a byte) is not
+			okN := len(init) == 1
+			if okN {
+				q := stripIntConv(init[0])
+				okN = q.Op == "bin" && q.Name == "/" && stripIntConv(q.Args[1]).Key() == fmt.Sprint(nArgs)
+				if okN {
+					num := stripIntConv(q.Args[0])
+					okN = num.Op == "len" && strings.Contains(num.Key(), fmt.Sprintf("param:e.%d", fieldIndex(m.T, "drawArgs")))
+				}
+			}
 			R.Check(okN, key+":count", pos, fmt.Sprintf("n = len(drawArgs)/%d", nArgs), shortKey(init[0]))
 			// chunk size m: n' = n - m
 			okStep := len(back) == 1 && back[0].Op == "bin" && back[0].Name == "-" && sym.Eq(back[0].Args[0], nAtom)
